@@ -195,10 +195,15 @@ def joint_trajectory_cases(ctx, rng, thorough, compare_observation):
             st = st0
             lines, exp_calls = [], []
             for _ in range(rng.choice([1, 3, 8])):
-                members = random_joint(rng, wm, dom_m, w, st)
-                if not members:
-                    break
-                nxt = commuting(wm, dom_m, st, members)
+                if rng.random() < 0.15:
+                    # a step in which no agent acts (every slot a nop), at any position including the first
+                    members, nxt = [], st
+                    ctx.count("joint_steps_with_only_nops")
+                else:
+                    members = random_joint(rng, wm, dom_m, w, st)
+                    if not members:
+                        break
+                    nxt = commuting(wm, dom_m, st, members)
                 lines.append(joint_line(w, members))
                 by_agent = {call[0]: [an] + call for an, call in members}
                 exp_calls.append([by_agent.get(a, ["nop"]) for a in w.agents])
